@@ -1,36 +1,7 @@
 //! e57check - property checks for cry-inc/e57 (property-based testing and fuzzing).
-mod adapt;
-mod alloc;
-mod c01;
-mod c02;
-mod c03;
-mod c04;
-mod c05;
-mod simple_model;
-mod c06;
-mod c07;
-mod c08;
-mod c09;
-mod c10;
-mod untrusted;
-mod c11;
-mod c12;
-mod c13;
-mod c14;
-mod c15;
-mod c16;
-mod c17;
-mod c18;
-mod c19;
-mod c20;
-mod rops;
-mod dev;
-mod gen;
-mod kit;
-mod preflight;
-mod prog;
 
-use kit::{run_check, RunOpts, Tier};
+use checks::kit::{self, run_check, RunOpts, Tier};
+use checks::{alloc, c07, preflight};
 
 #[global_allocator]
 static GLOBAL: alloc::Counting = alloc::Counting;
@@ -87,6 +58,19 @@ fn main() {
                 opts.worker = Some((a, b, c));
                 i += 3;
             }
+            "--tape-one" => {
+                i += 1;
+                let f: std::path::PathBuf = args.get(i).unwrap_or_else(|| usage()).into();
+                kit::install_panic_hook();
+                let code = checks::for_check!(id.as_str(), kit::tape_one, &f).unwrap_or(2);
+                std::process::exit(code);
+            }
+            "--dump-tapes" => {
+                let dir: std::path::PathBuf = args.get(i + 1).unwrap_or_else(|| usage()).into();
+                let n: usize = args.get(i + 2).and_then(|s| s.parse().ok()).unwrap_or(100);
+                let code = checks::for_check!(id.as_str(), kit::dump_tapes, &dir, n, opts.seed).unwrap_or(2);
+                std::process::exit(code);
+            }
             "--shrink" => {
                 i += 1;
                 opts.shrink_file = Some(args.get(i).unwrap_or_else(|| usage()).into());
@@ -98,32 +82,12 @@ fn main() {
     opts.tier = tier;
     kit::install_panic_hook();
     let code = match id.as_str() {
-        "C01" => run_check::<c01::C01>(&opts),
-        "C02" => run_check::<c02::C02>(&opts),
-        "C03" => run_check::<c03::C03>(&opts),
-        "C04" => run_check::<c04::C04>(&opts),
-        "C05" => run_check::<c05::C05>(&opts),
-        "C06" => run_check::<c06::C06>(&opts),
-        "C08" => run_check::<c08::C08>(&opts),
-        "C09" => run_check::<c09::C09>(&opts),
-        "C10" => run_check::<c10::C10>(&opts),
-        "C11" => run_check::<c11::C11>(&opts),
-        "C12" => run_check::<c12::C12>(&opts),
-        "C13" => run_check::<c13::C13>(&opts),
-        "C14" => run_check::<c14::C14>(&opts),
-        "C15" => run_check::<c15::C15>(&opts),
-        "C16" => run_check::<c16::C16>(&opts),
-        "C17" => run_check::<c17::C17>(&opts),
-        "C07" => run_check::<c07::C07>(&opts),
         "c07-digest" => {
             let seed = args.get(2).and_then(|s| s.parse().ok()).unwrap_or(0);
             let n = args.get(3).and_then(|s| s.parse().ok()).unwrap_or(10);
             println!("{}", c07::backend_digest(seed, n));
             0
         }
-        "C18" => run_check::<c18::C18>(&opts),
-        "C19" => run_check::<c19::C19>(&opts),
-        "C20" => run_check::<c20::C20>(&opts),
         "preflight" => match preflight::decoder_preflight() {
             Ok(()) => {
                 println!("preflight ok");
@@ -134,10 +98,13 @@ fn main() {
                 2
             }
         },
-        _ => {
-            eprintln!("unknown property id {id}");
-            2
-        }
+        other => match checks::for_check!(other, run_check, &opts) {
+            Some(code) => code,
+            None => {
+                eprintln!("unknown property id {id}");
+                2
+            }
+        },
     };
     std::process::exit(code);
 }
